@@ -76,6 +76,33 @@ def handle : DrvHandler := fun op args =>
         ("P", Json.mkObj (univ.map (fun i => (i, match c.P' i with | some r => recJson r | none => .null)))),
         ("closed", .bool c.closed),
         ("delays", .arr (c.delays.map (fun d => Json.num (JsonNumber.fromInt d))).toArray)]))
+  | "C02.subpass", [j] => do
+      let owned ← jStrList? (← jField? j "owned")
+      let selected ← jStrList? (← jField? j "selected")
+      let reason ← jStr? (← jField? j "reason")
+      let lifecycle ← jStr? (← jField? j "lifecycle") >>= lifecycleOf?
+      let limitsL ← (← objPairs? (← jField? j "limits")).mapM (fun (k, v) => do pure (k, ← limitsOf? v))
+      let pL ← (← objPairs? (← jField? j "P")).filterMapM (fun (k, v) =>
+        match v with
+        | .null => some none
+        | v => do let r ← recOf? v; pure (some (k, r)))
+      let oL ← (← objPairs? (← jField? j "outcomes")).mapM (fun (k, v) => do pure (k, ← outcomeOf? v))
+      let now ← jInt? (← jField? j "now")
+      let now1 ← jInt? (← jField? j "now1")
+      let univ ← jStrList? (← jField? j "universe")
+      let cfg : Cfg := { owned, selected, reason, lifecycle,
+                         limits := fun i => (lookupD limitsL i).getD { timeout := none, retries := none } }
+      let P : Store := lookupD pL
+      let missing : Outcome := { final := false, delay := some (-1), error := true, subrefs := ["<no-outcome>"] }
+      let exec : Id → Nat → Outcome := fun i _ => (lookupD oL i).getD missing
+      let c := subPass cfg P now now1 exec
+      some (ok (Json.mkObj [
+        ("invoked", .arr (c.invoked.map (fun (i, n) => Json.arr #[.str i, .num (JsonNumber.fromNat n)])).toArray),
+        ("P", Json.mkObj (univ.map (fun i => (i, match c.P' i with | some r => recJson r | none => .null)))),
+        ("final", .bool c.outcome.final),
+        ("error", .bool c.outcome.error),
+        ("delay", match c.outcome.delay with | some d => Json.num (JsonNumber.fromInt d) | none => .null),
+        ("subrefs", .arr (c.outcome.subrefs.map Json.str).toArray)]))
   | _, _ => none
 
 end Kopf.Drv.C02
